@@ -499,3 +499,180 @@ vharness! {
         vcover!(p.properties.correlation_data.is_some() && p.properties.content_type.is_some() && p.properties.response_topic.is_some() && p.properties.is_utf8_payload, "four more properties");
     }
 }
+
+// ===================================================================================================
+// C09: outbound limit (MQTT 5 Maximum Packet Size), request-problem-information, failed encodes
+// ===================================================================================================
+use super::super::packet::{Auth, ConnectAck, Disconnect, PublishAck, PublishAck2, SubscribeAck, UnsubscribeAck};
+use super::super::{UserProperties, UserProperty};
+use crate::v5::codec::verif_v5::{
+    any_auth_reason, any_connack_reason, any_disconnect_reason, any_puback2_reason, any_puback_reason,
+    any_suback_reason, any_unsuback_reason, props_begin,
+};
+
+fn any_user_props2<const S: usize>() -> UserProperties {
+    let n = vk::any_len(2);
+    let mut v = Vec::new();
+    let mut i = 0;
+    while i < n {
+        v.push((vh::any_str::<S>(), vh::any_str::<S>()));
+        i += 1;
+    }
+    v
+}
+
+/// wire size of the diagnostics when nothing is dropped (spec arithmetic: id + 2 length-prefixed
+/// strings per user property, id + length-prefixed reason string)
+fn diag_full_len(ups: &[UserProperty], rs: &Option<ByteString>) -> usize {
+    let mut n = 0;
+    let mut i = 0;
+    while i < ups.len() {
+        n += 1 + 2 + ups[i].0.len() + 2 + ups[i].1.len();
+        i += 1;
+    }
+    if let Some(s) = rs {
+        n += 1 + 2 + s.len();
+    }
+    n
+}
+
+/// Reads a property section that may contain, besides the `other` properties handled by the
+/// caller-provided ids (skipped via `skip`), User Properties and a Reason String. Shortening rule
+/// of the property: the user properties on the wire are a PREFIX of the original list (whole
+/// properties, never truncated), the reason string is either the original or absent.
+/// Returns (ok, user properties present, reason string present).
+fn spec_read_diag_lim(r: &mut Rd<'_>, end: usize, ups: &[UserProperty], rs: &Option<ByteString>) -> (bool, usize, bool) {
+    let mut ok = true;
+    let mut idx = 0;
+    let mut seen_rs = false;
+    let mut guard = 0;
+    while r.pos < end && !r.bad && guard < 6 {
+        match r.u8() {
+            0x26 => {
+                if idx < ups.len() {
+                    ok &= r.expect_lp(ups[idx].0.as_bytes()) & r.expect_lp(ups[idx].1.as_bytes());
+                    idx += 1;
+                } else {
+                    ok = false;
+                }
+            }
+            0x1F => {
+                ok &= !seen_rs;
+                seen_rs = true;
+                match rs {
+                    Some(s) => ok &= r.expect_lp(s.as_bytes()),
+                    None => ok = false,
+                }
+            }
+            _ => ok = false,
+        }
+        guard += 1;
+    }
+    (ok && r.pos == end, idx, seen_rs)
+}
+
+/// common post-conditions of one `encodev` under an outbound limit.
+/// `peer_max` = the peer's Maximum Packet Size (0 = none announced)
+fn lim_frame<'a>(out: &'a Bytes, first: u8, peer_max: u32) -> (Rd<'a>, u32) {
+    let mut r = Rd::new(out);
+    assert!(r.u8() == first);
+    let rl = r.varint();
+    assert!(!r.bad);
+    assert!(rl as usize == r.left(), "exactly one frame, truthful Remaining Length");
+    if peer_max != 0 {
+        assert!(out.len() as u64 <= peer_max as u64, "frame exceeds the peer's Maximum Packet Size");
+    }
+    (r, rl)
+}
+
+fn lim_codec(peer_max: u32, no_problem_info: bool) -> Codec {
+    let codec = Codec::new();
+    if peer_max != 0 {
+        codec.set_max_outbound_size(peer_max);
+    }
+    if no_problem_info {
+        codec.flags.set(CodecFlags::NO_PROBLEM_INFO);
+    }
+    codec
+}
+
+/// peers announcing a Maximum Packet Size below 6 are the subject of a recorded finding
+/// (lim5_small_peer); every other limit value is in scope here
+fn any_peer_max() -> u32 {
+    let p = vk::any_u32();
+    vk::assume(p == 0 || p >= 6);
+    p
+}
+
+macro_rules! lim5_ack {
+    ($name:ident, $variant:ident, $ty:ident, $reason:ident, $first:expr) => {
+        vharness! {
+            fn $name() unwind(6) {
+                let (reason_code, num) = $reason();
+                let pkt = $ty {
+                    packet_id: vh::any_nz16(),
+                    reason_code,
+                    properties: any_user_props2::<1>(),
+                    reason_string: vh::any_opt_str::<2>(),
+                };
+                let peer_max = any_peer_max();
+                let npi = vk::any_bool();
+                let codec = lim_codec(peer_max, npi);
+                let mut pages = BytePages::default();
+                let r = codec.encodev(Encoded::Packet(Packet::$variant(pkt.clone())), &mut pages); // no panic/overflow for ANY limit
+                match r {
+                    Err(e) => {
+                        assert!(pages.len() == 0, "a failed encode appends no bytes");
+                        assert!(e == EncodeError::OverMaxPacketSize);
+                        // only when even the diagnostics-free packet (id, reason, empty property list =
+                        // 4 bytes) does not fit next to the 5 bytes the codec reserves for the fixed
+                        // header (1 + the longest Remaining Length, see set_max_outbound_size)
+                        assert!(peer_max != 0 && (4 + 5) as u64 > peer_max as u64);
+                    }
+                    Ok(()) => {
+                        let out = pages.freeze();
+                        let (mut rd, rl) = lim_frame(&out, $first, peer_max);
+                        assert!(rd.u16() == pkt.packet_id.get());
+                        assert!(rd.u8() == num);
+                        let end = props_begin(&mut rd);
+                        let (ok, n_up, has_rs) = spec_read_diag_lim(&mut rd, end, &pkt.properties, &pkt.reason_string);
+                        assert!(ok && rd.at_end() && !rd.bad, "every other field unchanged; diagnostics whole or absent");
+                        if npi {
+                            assert!(n_up == 0 && !has_rs, "problem information declined: no diagnostics");
+                        } else if peer_max == 0 || peer_max as u64 >= (2 + 3 + 4 + 4 + 5 + diag_full_len(&pkt.properties, &pkt.reason_string)) as u64 {
+                            // nothing is dropped when there is clearly room
+                            assert!(n_up == pkt.properties.len() && has_rs == pkt.reason_string.is_some());
+                        }
+                        // the size the library reports equals what it wrote
+                        let lim = if peer_max == 0 { 0xFFF_FFFF } else { peer_max - 5 };
+                        let mut again = pkt.clone();
+                        if npi { again.properties.clear(); again.reason_string = None; }
+                        assert!(again.encoded_size(lim) == rl as usize);
+                        vcover!(n_up == 1 && pkt.properties.len() == 2, "second user property dropped, first kept");
+                        vcover!(!has_rs && pkt.reason_string.is_some() && !npi, "reason string dropped by the limit");
+                        vcover!(n_up == 2 && has_rs, "nothing dropped");
+                        vcover!(npi && pkt.properties.len() == 2, "diagnostics stripped on request");
+                    }
+                }
+            }
+        }
+    };
+}
+//@ props: C09
+//@ tier: quick
+//@ functions: v5::Codec::{encodev, set_max_outbound_size}, EncodeLtd for Packet / PublishAck, ack_props::{encoded_size, encode}, encoded_size_opt_props, encode_opt_props, var_int_len, var_int_len_from_size
+//@ bounds: peer Maximum Packet Size: EVERY u32 value except 1..=5 (0 = unlimited); request-problem-information flag symbolic; packet id full width; all reason codes; 0..=2 user properties (0..=1-byte strings); optional reason string 0..=2 bytes
+//@ unwindset: utf8_is_valid=4 slice_eq=4 expect_lp=4 any_user_props2=4 encode_opt_props=4 encoded_size_opt_props=4 clone=4 spec_read_diag_lim=5 diag_full_len=4 clear=4
+//@ assumes: strings well-formed UTF-8; peer limits 1..=5 excluded (recorded finding lim5_small_peer)
+//@ mem: 10  timeout: 1500
+//@ desc: PUBACK under an outbound limit: no panic for any limit; Ok => one frame, truthful length == reported size, within the peer limit, only whole trailing diagnostics dropped; Err => OverMaxPacketSize and nothing appended; declined problem information => no diagnostics
+lim5_ack!(lim5_puback, PublishAck, PublishAck, any_puback_reason, 0x40);
+//@ props: C09
+//@ tier: quick
+//@ functions: v5::Codec::{encodev, set_max_outbound_size}, EncodeLtd for PublishAck2, ack_props::*, encoded_size_opt_props, encode_opt_props
+//@ bounds: as lim5_puback (PUBREL; both reason codes)
+//@ unwindset: utf8_is_valid=4 slice_eq=4 expect_lp=4 any_user_props2=4 encode_opt_props=4 encoded_size_opt_props=4 clone=4 spec_read_diag_lim=5 diag_full_len=4 clear=4
+//@ assumes: strings well-formed UTF-8; peer limits 1..=5 excluded (recorded finding)
+//@ mem: 10  timeout: 1500
+//@ desc: PUBREL under an outbound limit (same obligations as lim5_puback)
+lim5_ack!(lim5_pubrel, PublishRelease, PublishAck2, any_puback2_reason, 0x62);
